@@ -449,6 +449,7 @@ type connectStreamingClientConn struct {
 	unmarshaler      connectStreamingUnmarshaler
 	responseHeader   http.Header
 	responseTrailer  http.Header
+	trailerReceived  bool // Receive has copied the end-of-stream metadata into responseTrailer
 }
 
 func (cc *connectStreamingClientConn) Spec() Spec {
@@ -477,7 +478,11 @@ func (cc *connectStreamingClientConn) Receive(msg any) error {
 		return nil
 	}
 	// See if the server sent an explicit error in the end-of-stream message.
-	mergeHeaders(cc.responseTrailer, cc.unmarshaler.Trailer())
+	// Callers may keep asking after the stream has ended: copy the trailers once.
+	if !cc.trailerReceived {
+		cc.trailerReceived = true
+		mergeHeaders(cc.responseTrailer, cc.unmarshaler.Trailer())
+	}
 	if serverErr := cc.unmarshaler.EndStreamError(); serverErr != nil {
 		// This is expected from a protocol perspective, but receiving an
 		// end-of-stream message means that we're _not_ getting a regular message.
